@@ -93,19 +93,31 @@ func buildClient(c *Case, w *world, logw io.Writer) (*regclient.RegClient, func(
 	// the logger comes first so that the configuration loading below is logged too
 	conf := rcutil.Conf{}
 	var hosts []config.Host
+	// the level the logger is enabled for is part of the case ("secrets never appear in log output at any level")
+	sl, ll := slog.Level(types.LevelTrace), logrus.TraceLevel
+	switch c.LogLevel {
+	case "debug":
+		sl, ll = slog.LevelDebug, logrus.DebugLevel
+	case "info":
+		sl, ll = slog.LevelInfo, logrus.InfoLevel
+	case "warn":
+		sl, ll = slog.LevelWarn, logrus.WarnLevel
+	case "error":
+		sl, ll = slog.LevelError, logrus.ErrorLevel
+	}
 	switch c.LogVia {
 	case "json":
-		conf.Opts = append(conf.Opts, regclient.WithSlog(slog.New(slog.NewJSONHandler(logw, &slog.HandlerOptions{Level: types.LevelTrace}))))
+		conf.Opts = append(conf.Opts, regclient.WithSlog(slog.New(slog.NewJSONHandler(logw, &slog.HandlerOptions{Level: sl}))))
 	case "logrus", "logrus-json":
 		lg := logrus.New()
 		lg.SetOutput(logw)
-		lg.SetLevel(logrus.TraceLevel)
+		lg.SetLevel(ll)
 		if c.LogVia == "logrus-json" {
 			lg.SetFormatter(&logrus.JSONFormatter{})
 		}
 		conf.Opts = append(conf.Opts, regclient.WithLog(lg))
 	default:
-		conf.Opts = append(conf.Opts, regclient.WithSlog(slog.New(slog.NewTextHandler(logw, &slog.HandlerOptions{Level: types.LevelTrace}))))
+		conf.Opts = append(conf.Opts, regclient.WithSlog(slog.New(slog.NewTextHandler(logw, &slog.HandlerOptions{Level: sl}))))
 	}
 	auths := map[string]map[string]string{}
 	helper := map[string]string{} // host name the helper is asked for -> JSON answer
